@@ -645,7 +645,7 @@ class CCA(CCABaseModel):
         """
         view_preprocessed = []
         for i, view in enumerate(views):
-            view_preprocessed = self.preprocessors[i].transform(view)
+            view_preprocessed.append(self.preprocessors[i].transform(view))
 
         transformed_views = self._transform(view_preprocessed)
 
